@@ -192,6 +192,8 @@ package service
 //@   trace[C07,checks-the-captured-cache] each service.(*ReplayCache).Add satisfies $arg0 == replayCache
 //@   trace[C07,replay-is-refused] each service.(*ReplayCache).Add satisfies $res0 == false ==> result.2 != nil && result.1 == nil
 //@   trace[C07,one-check-per-handshake] atmost 1 service.(*ReplayCache).Add
+//@   trace[C07,every-matched-handshake-is-checked-against-the-history] each service.ServerSaltGenerator.IsServerSalt satisfies $res0 == false && replayCache != nil ==> evcount("service.(*ReplayCache).Add") == 1
+//@   trace[C07,checked-under-the-matched-key-and-its-salt] each service.(*ReplayCache).Add satisfies $arg1 == evres("service.findAccessKey", 0).ID && sameslice($arg2, evres("service.findAccessKey", 2))
 //@   ensures result.2 == nil ==> result.1 != nil
 //@   ensures result.2 != nil ==> result.1 == nil
 
@@ -209,7 +211,7 @@ package service
 //@   props C15 C18
 //@   params drainErr
 //@   ensures[C15,clean-end-of-stream] drainErr == nil ==> result == "eof"
-//@   ensures[C15,drain-outcome-is-one-of-three] result == "eof" || result == "timeout" || result == "other"
+//@   ensures[C15,C20,drain-outcome-is-one-of-three] result == "eof" || result == "timeout" || result == "other"
 //@   ensures[C15,error-is-not-eof] drainErr != nil ==> result != "eof"
 //@   trace[C15,timeout-named-as-such] each net.Error.Timeout satisfies ($res0 == true ==> result == "timeout") && ($res0 == false ==> result == "other")
 
@@ -269,6 +271,8 @@ package service
 //@   trace[C05,dials-through-handler-dialer] each transport.StreamDialer.DialStream satisfies $recv == h.dialer
 //@   trace[C15,target-counters-wired] each metrics.MeasureConn satisfies $arg1 == &proxyMetrics.ProxyTarget && $arg2 == &proxyMetrics.TargetProxy
 //@   trace[C05,one-dial] atmost 1 transport.StreamDialer.DialStream
+//@   trace[C02,the-dialed-connection-is-only-wrapped-for-measuring] each * satisfies (evcount("transport.StreamDialer.DialStream") == 1 ==> (uses(evres("transport.StreamDialer.DialStream", 0)) ==> evis("metrics.MeasureConn")))
+//@   trace[C02,no-socket-options-on-the-target] never net.(*TCPConn).Set*
 
 //@ func proxyConnection
 //@   props C02 C05 C11 C15 C18
@@ -285,6 +289,7 @@ package service
 //@   trace[C15,target-relay-failure-status] each io.Copy satisfies $res1 != nil && evres("recv", 0) == nil ==> result != nil && result.Status == "ERR_RELAY_TARGET"
 //@   trace[C15,clean-relay-is-ok] each io.Copy satisfies $res1 == nil && evres("recv", 0) == nil ==> result == nil
 //@   trace[C02,target-closed-at-end] exactly 1 transport.StreamConn.Close when evres("transport.StreamDialer.DialStream", 1) == nil
+//@   trace[C02,C18,the-socket-closed-here-is-the-dialed-one] each transport.StreamConn.Close satisfies $recv == evres("transport.StreamDialer.DialStream", 0)
 //@   trace[C02,one-relay-goroutine] exactly 1 go:service.proxyConnection$1 when evres("transport.StreamDialer.DialStream", 1) == nil
 //@   trace[C05,one-dial] exactly 1 transport.StreamDialer.DialStream
 //@   trace[C11,context-only-for-dialing] each transport.StreamDialer.DialStream satisfies $arg0 == ctx
@@ -304,6 +309,8 @@ package service
 //@   trace[C02,result-delivered-once] exactly 1 send
 //@   trace[C02,result-after-fin] before transport.StreamConn.CloseWrite send
 //@   trace[C06,relay-error-drained] atleast 1 io.Copy
+//@   trace[C02,C06,client-read-side-closed-only-after-the-drain] notafter io.Copy transport.StreamConn.CloseRead
+//@   trace[C06,a-failed-relay-is-drained] each io.Copy satisfies $res1 != nil && uses(tgtConn) ==> evcount("io.Copy") == 2
 //@   trace[C02,no-deadline-during-relay] never transport.StreamConn.Set*Deadline
 
 //@ func TCPConnMetrics.AddClosed
@@ -464,6 +471,16 @@ package service
 // HMAC-SHA1(key, prefix). HMAC is an assumed deterministic function of (key, prefix).
 // ---------------------------------------------------------------------------
 
+// The marking key is derived from the access key's secret alone (HKDF-SHA1, no extraction salt, the
+// fixed label), so that every process serving the key recognises the salts any of them issued.
+//@ func NewServerSaltGenerator
+//@   props C08 C18
+//@   params secret
+//@   trace[C08,marking-key-derived-once] exactly 1 hkdf.New
+//@   trace[C08,marking-key-depends-on-the-secret-alone] each hkdf.New satisfies $arg2 == nil && sameslice($arg3, serverSaltLabel)
+//@   trace[C08,no-randomness-in-the-marking-key] never rand.Read
+//@   ensures result != nil && typeis(result, "service.serverSaltGenerator")
+
 //@ func (serverSaltGenerator).splitSalt
 //@   props C08 C18
 //@   params sg salt
@@ -567,6 +584,9 @@ package service
 //@   trace[C05,validated-when-accepted] exactly 1 service.packetHandler.targetIPValidator when result.2 == nil
 //@   trace[C03,payload-starts-after-address] each socks.SplitAddr satisfies result.2 == nil ==> result.0.$off == textData.$off + len($res0) && sameslice($arg0, textData)
 //@   trace[C03,address-parsed-once] exactly 1 socks.SplitAddr
+//@   trace[C03,target-is-the-resolution-of-the-address-in-the-header] each net.ResolveUDPAddr satisfies $arg1 == pure("socks.(Addr).String", evres("socks.SplitAddr", 0)) && (result.2 == nil ==> result.1 == $res0)
+//@   trace[C03,every-accepted-target-was-resolved-from-the-header] exactly 1 net.ResolveUDPAddr when result.2 == nil
+//@   trace[C05,a-destination-the-policy-allows-is-not-refused] each service.packetHandler.targetIPValidator satisfies $res0 == nil ==> result.2 == nil
 //@   trace[C05,validator-verdict-respected] each service.packetHandler.targetIPValidator satisfies result.2 == nil ==> $res0 == nil && sameslice($arg0, result.1.IP)
 
 //@ func isDNS
@@ -574,7 +594,7 @@ package service
 //@   params addr
 //@   pure
 //@   requires addr != nil
-//@   trace[C14,dns-means-port-53-of-this-address] each net.SplitHostPort satisfies $arg0 == pure("net.Addr.String", addr) && result == ($res1 == "53")
+//@   trace[C04,C14,dns-means-port-53-of-this-address] each net.SplitHostPort satisfies $arg0 == pure("net.Addr.String", addr) && result == ($res1 == "53")
 //@   trace[C14,port-looked-up-once] exactly 1 net.SplitHostPort
 
 // onWrite: the association's deadline never moves earlier, is at least now + 17 s after a DNS
@@ -722,6 +742,7 @@ package service
 //@ func (*packetHandler).Handle$1
 //@   props C03 C04 C05 C16 C18
 //@   must-recover
+//@   lemma[C03,C16,datagram-buffers-hold-the-largest-datagram] serverUDPBufferSize >= 65536
 //@   requires validPacketHandler(h) && validNatmap(nm) && clientConn != nil
 //@   requires len(cipherBuf) == serverUDPBufferSize && len(textBuf) == serverUDPBufferSize && cipherBuf.$arr != textBuf.$arr
 //@   requires private(cipherBuf) && private(textBuf)
@@ -752,7 +773,7 @@ package service
 //@   trace[C03,C16,unauthenticated-datagram-status] each service.findAccessKeyUDP satisfies $res3 != nil ==> result != nil && result.Status == "ERR_CIPHER"
 //@   trace[C05,C16,refused-destination-status] each service.(*packetHandler).validatePacket satisfies $res2 != nil ==> result == $res2 && evcount("service.(*natconn).WriteTo") == 0
 //@   trace[C16,failed-send-status] each service.(*natconn).WriteTo satisfies ($res1 != nil ==> result != nil && result.Status == "ERR_WRITE") && ($res1 == nil ==> result == nil)
-//@   trace[C03,C04,valid-datagram-is-sent] each service.(*packetHandler).validatePacket satisfies (evcount("net.ListenPacket") == 0 || evres("net.ListenPacket", 1) == nil) && $res2 == nil ==> evcount("service.(*natconn).WriteTo") == 1
+//@   trace[C03,C04,C14,valid-datagram-is-sent] each service.(*packetHandler).validatePacket satisfies (evcount("net.ListenPacket") == 0 || evres("net.ListenPacket", 1) == nil) && $res2 == nil ==> evcount("service.(*natconn).WriteTo") == 1
 //@   trace[C05,sent-to-validated-address] each service.(*natconn).WriteTo satisfies evres("service.(*packetHandler).validatePacket", 2) == nil && $arg2 != nil && as($arg2, "*net.UDPAddr") == evres("service.(*packetHandler).validatePacket", 1)
 //@   trace[C03,payload-from-validation] each service.(*natconn).WriteTo satisfies sameslice($arg1, evres("service.(*packetHandler).validatePacket", 0))
 //@   trace[C03,no-traffic-without-key] never service.(*natconn).WriteTo when result != nil && result.Status == "ERR_CIPHER"
@@ -876,6 +897,9 @@ package service
 //@   params pc p
 //@   requires pc != nil && pc.closeCh != nil && pc.readCh != nil && !closed(pc.readCh)
 //@   ensures[C12,closed-handle-refuses] old(closed(pc.closeCh)) ==> result.2 != nil && result.1 == nil && result.0 == 0
+//@   trace[C11,C12,C19,a-request-handed-to-the-reader-is-waited-for] exactly 1 recv where $recv == respCh when evcount("send") == 1
+//@   trace[C12,the-readers-answer-is-returned] each recv[respCh] satisfies result.0 == $res0.n && result.1 == $res0.addr && result.2 == $res0.err
+//@   trace[C12,C19,the-callers-buffer-travels-with-the-request] each send satisfies $recv == pc.readCh && sameslice($arg0.buffer, p) && $arg0.respCh == respCh
 
 //@ func (*virtualPacketConn).Close
 //@   props C12 C13 C18 C19
@@ -929,6 +953,7 @@ package service
 //@   props C11 C12 C13 C18 C19
 //@   acquires-level 20
 //@   requires m != nil
+//@   trace[C13,releasing-a-handle-waits-for-nobody] each * satisfies !evis("wg.Wait") && !evis("recv") && !evis("send")
 //@   assume-at-lock m.count > 0
 //@   ensures[C12,socket-released-on-last-close] atlock(m.count) == 1 ==> m.ln == nil
 //@   ensures[C11,socket-kept-while-in-use] atlock(m.count) > 1 ==> m.ln == atlock(m.ln) && m.ln != nil
@@ -967,6 +992,7 @@ package service
 //@   props C11 C12 C13 C18 C19
 //@   acquires-level 20
 //@   requires m != nil
+//@   trace[C13,releasing-a-handle-waits-for-nobody] each * satisfies !evis("wg.Wait") && !evis("recv") && !evis("send")
 //@   assume-at-lock m.count > 0
 //@   ensures[C12,socket-released-on-last-close] atlock(m.count) == 1 ==> m.pc == nil && closed(atlock(m.doneCh))
 //@   ensures[C11,socket-kept-while-in-use] atlock(m.count) > 1 ==> m.pc == atlock(m.pc) && m.pc != nil && !closed(m.doneCh)
